@@ -252,7 +252,7 @@ fn case<S: Setup>(seed: u64, idx: usize, tier: Tier) -> Vec<CaseResult> {
     let g = gen_prog::<S>(&mut rng, &opts);
     let cfg = PackCfg::random(&mut rng);
     let key = format!("{}:{}:{}", S::NAME, fnv(&serde_json::to_string(&g.prog.stmts).unwrap()), cfg.key());
-    let cross = idx % tier.pick(12, 20) == 0;
+    let cross = idx % tier.pick(12, 20) == 0 || (g.prog.recompose_npo && (idx % 3 == 0 || std::env::var("P3R_C09_CROSS_ALL").is_ok()));
     one::<S>(&g.prog, &g.publics, &g.privates, &cfg, key, cross, idx < 60, if clean { "clean" } else { "any" })
 }
 
